@@ -130,6 +130,8 @@ pub const TEXTS: &[&str] = &[
     "x:y:z",
     "tab\there",
     "ends with colon:",
+    "   ",
+    " ",
     "0123456789abcdefghijklmnopqrstuvwxyzABCDEFGHIJKLMNOPQRSTUVWXYZ0123456789abcdefghijklmnopqrstuvwxyzABCDEFGHIJKLMNOPQRSTUVWXYZ0123456789abcdefghijklmnopqrstuvwxyzABCDEFGHIJKLMNOPQRSTUVWXYZ and so on",
 ];
 
@@ -665,6 +667,11 @@ pub fn gen_op(m: &Model, p: &Profile, seed: &OpSeed) -> Option<Op> {
                 chans.insert(0, ["#nosuch", "#c2", "&l0"][s.pick(3)].to_string());
                 chans.dedup();
             }
+            // the same channel named twice in one list
+            if s.chance(10) {
+                let d = chans[s.pick(chans.len())].clone();
+                chans.push(d);
+            }
             if s.chance(40) {
                 format!("PART {} :{}", chans.join(","), s.choose(TEXTS))
             } else {
@@ -701,7 +708,13 @@ pub fn gen_op(m: &Model, p: &Profile, seed: &OpSeed) -> Option<Op> {
                 let d = targets[0].clone();
                 targets.push(d);
             }
-            format!("{} {} :{}", verb, targets.join(","), s.choose(TEXTS))
+            // rarely the text is a middle parameter and more parameters follow: the text is the
+            // second parameter, whatever comes after it
+            if s.chance(6) {
+                format!("{} {} {} :{}", verb, targets.join(","), ["Hello", "x", "a:b", "#c0"][s.pick(4)], s.choose(TEXTS))
+            } else {
+                format!("{} {} :{}", verb, targets.join(","), s.choose(TEXTS))
+            }
         }
         K::Nick => {
             let k = s.pick(10);
@@ -769,6 +782,10 @@ pub fn gen_op(m: &Model, p: &Profile, seed: &OpSeed) -> Option<Op> {
                 if !vs.contains(&v) {
                     vs.push(v);
                 }
+            }
+            if s.chance(8) && !vs.is_empty() {
+                let d = vs[0].clone();
+                vs.push(d);
             }
             if s.chance(50) {
                 format!("KICK {} {} :{}", ch, vs.join(","), s.choose(TEXTS))
